@@ -2,6 +2,7 @@ import OW.Driver.Proto
 import OW.Driver.Date
 import OW.Driver.Kernel
 import OW.Driver.Fn
+import OW.Driver.Nd
 namespace OW.Driver
 open OW.Proto
 
@@ -10,6 +11,10 @@ def dispatch (fam : String) (args : Toks) : String :=
   match fam with
   | "DATE" => Date.handle args
   | "K" => Kernel.handle args
+  | "KSPEC" => Kernel.handle args
+  | "ND" => Nd.handle args
+  | "NDPAIR" => Nd.handlePair args
+  | "NI" => Nd.handleNI args
   | "FR" => Fn.handleFR args
   | "PW" => Fn.handlePW args
   | _ => "bad-family"
